@@ -864,7 +864,12 @@ func (c *compiler) evalCallExpression(node *ast.CallExpression) (interface{}, er
 					compiler: c,
 					block:    node.Block,
 				}
-				args = append(args, reflect.ValueOf(hargs))
+				hv := reflect.ValueOf(hargs)
+				if !hv.Type().AssignableTo(arg) {
+					// a defined type over HelperContext
+					hv = hv.Convert(arg)
+				}
+				args = append(args, hv)
 				return
 			}
 
